@@ -367,7 +367,11 @@ class ModifiedPrior(AbstractPriorModel, ABC, ArithmeticMixin, Compound):
 
     @property
     def cls(self):
-        return self.prior.cls
+        try:
+            return self.prior.cls
+        except AttributeError:
+            # the operand is a prior rather than a prior model
+            return float
 
     @property
     def prior(self):
